@@ -309,7 +309,15 @@ void iv_signal_unregister(struct iv_signal *this)
 		sa.sa_flags = 0;
 		sigaction(this->signum, &sa, NULL);
 	} else if ((this->flags & IV_SIGNAL_FLAG_EXCLUSIVE) && this->active) {
-		__iv_signal_do_wake(iv_signal_tree(this), this->signum);
+		/*
+		 * Hand the pending delivery to the next interest.  Like
+		 * iv_signal_handler(), fall back to the process-wide
+		 * interests if this was a this-thread interest and no
+		 * other interest of this thread wants the signal.
+		 */
+		if (!__iv_signal_do_wake(iv_signal_tree(this), this->signum) &&
+		    (this->flags & IV_SIGNAL_FLAG_THIS_THREAD))
+			__iv_signal_do_wake(&process_sigs, this->signum);
 	}
 
 	spin_unlock_sigmask(&sig_lock, &mask);
